@@ -91,7 +91,13 @@ class SsbScriptSsbCompiler:
         parser.addParseListener(compiler_listener)
 
         # Start Parsing
-        parser.start()
+        try:
+            parser.start()
+        except Exception:
+            # The listener runs while parsing and may fail on the incomplete tree of a syntax error.
+            if len(error_listener.syntax_errors) > 0:
+                raise ParseError(error_listener.syntax_errors[0])
+            raise
 
         # Look for errors
         if len(error_listener.syntax_errors) > 0:
